@@ -226,3 +226,100 @@ pub fn jail_readonly_root(writable: &[&Path]) -> bool {
         libc::mount(std::ptr::null(), root.as_ptr(), std::ptr::null(), libc::MS_REMOUNT | libc::MS_BIND | libc::MS_RDONLY, std::ptr::null()) == 0
     }
 }
+
+/// inotify watch (Linux) on a set of directories: what was created / written / deleted / renamed in them while an
+/// operation ran - also what is gone again when the operation returns (a temporary file next to the workspace root is
+/// invisible to a before / after comparison).  Non-recursive: one watch per directory.  `None` when the kernel refuses
+/// (instance / watch limits): the caller counts that.
+pub struct Watcher {
+    fd: i32,
+    wds: std::collections::BTreeMap<i32, PathBuf>,
+}
+impl Watcher {
+    pub fn new(dirs: &[PathBuf]) -> Option<Watcher> {
+        let fd = unsafe { libc::inotify_init1(libc::IN_NONBLOCK | libc::IN_CLOEXEC) };
+        if fd < 0 {
+            return None;
+        }
+        let mut w = Watcher { fd, wds: Default::default() };
+        let mask = libc::IN_CREATE | libc::IN_DELETE | libc::IN_MODIFY | libc::IN_MOVED_FROM | libc::IN_MOVED_TO | libc::IN_CLOSE_WRITE | libc::IN_ATTRIB;
+        for d in dirs {
+            use std::os::unix::ffi::OsStrExt;
+            let c = match std::ffi::CString::new(d.as_os_str().as_bytes()) {
+                Ok(c) => c,
+                Err(_) => continue,
+            };
+            let wd = unsafe { libc::inotify_add_watch(fd, c.as_ptr(), mask) };
+            if wd < 0 {
+                return None;
+            }
+            w.wds.insert(wd, d.clone());
+        }
+        Some(w)
+    }
+    /// (event, path) in the order the kernel reported them
+    pub fn drain(&mut self) -> Vec<(String, PathBuf)> {
+        let mut out = vec![];
+        let mut buf = vec![0u8; 64 * 1024];
+        loop {
+            let n = unsafe { libc::read(self.fd, buf.as_mut_ptr() as *mut libc::c_void, buf.len()) };
+            if n <= 0 {
+                break;
+            }
+            let n = n as usize;
+            let mut i = 0;
+            let hdr = std::mem::size_of::<libc::inotify_event>();
+            while i + hdr <= n {
+                let ev: libc::inotify_event = unsafe { std::ptr::read_unaligned(buf[i..].as_ptr() as *const libc::inotify_event) };
+                let len = ev.len as usize;
+                let name_bytes = &buf[i + hdr..(i + hdr + len).min(n)];
+                let name: Vec<u8> = name_bytes.iter().cloned().take_while(|b| *b != 0).collect();
+                use std::os::unix::ffi::OsStrExt;
+                let dir = self.wds.get(&ev.wd).cloned().unwrap_or_default();
+                let path = if name.is_empty() { dir } else { dir.join(std::ffi::OsStr::from_bytes(&name)) };
+                let m = ev.mask;
+                let what = if m & libc::IN_CREATE != 0 {
+                    "CREATE"
+                } else if m & libc::IN_DELETE != 0 {
+                    "DELETE"
+                } else if m & libc::IN_MOVED_FROM != 0 {
+                    "MOVED_FROM"
+                } else if m & libc::IN_MOVED_TO != 0 {
+                    "MOVED_TO"
+                } else if m & libc::IN_MODIFY != 0 {
+                    "MODIFY"
+                } else if m & libc::IN_CLOSE_WRITE != 0 {
+                    "CLOSE_WRITE"
+                } else if m & libc::IN_ATTRIB != 0 {
+                    "ATTRIB"
+                } else {
+                    "OTHER"
+                };
+                if what != "OTHER" {
+                    out.push((what.to_string(), path));
+                }
+                i += hdr + len;
+            }
+        }
+        out
+    }
+}
+impl Drop for Watcher {
+    fn drop(&mut self) {
+        unsafe {
+            libc::close(self.fd);
+        }
+    }
+}
+impl Sandbox {
+    /// every directory of the scratch tree that is not the workspace root or below it
+    pub fn outside_dirs(&self) -> Vec<PathBuf> {
+        let mut v = vec![self.top.clone()];
+        for (c, n) in self.snapshot() {
+            if *(&n) == Node::Dir && !is_ws(&c) {
+                v.push(comps_path(&self.top, &c));
+            }
+        }
+        v
+    }
+}
